@@ -38,4 +38,9 @@ func verifWriteFailed(s string)                    { panic("symbolic only") }
 func verifOr(a, b bool) bool                       { panic("symbolic only") }
 func verifAnd(a, b bool) bool                      { panic("symbolic only") }
 func verifImplies(a, b bool) bool                  { panic("symbolic only") }
+func verifNot(a bool) bool                         { panic("symbolic only") }
+func verifMatchPrefix(s, prefix string) bool       { panic("symbolic only") }
+func verifAppended(s, prefix, piece string) bool   { panic("symbolic only") }
+func verifParam(tag string) int                    { panic("symbolic only") }
+func verifNoteURL(raw, out string, ok bool)        { panic("symbolic only") }
 func verifSameObject(a, b interface{}) bool        { panic("symbolic only") }
